@@ -46,6 +46,8 @@ type Frame struct {
 	defers  []deferred
 	call    ssa.Value // register in the caller frame receiving the result (nil for root / defers)
 	variant map[*ssa.BasicBlock]Val
+	dummy    bool
+	loopRef  map[*ssa.BasicBlock]*State // state at the loop head (for loop frames)
 	unrolled map[*ssa.BasicBlock]int // remaining header visits of an executed (not cut) range loop
 	inlTag  string
 }
@@ -81,6 +83,7 @@ type State struct {
 	epoch   int
 	pending []pendingHavoc
 	alias   map[string]string
+	conds   map[int]bool // indices of pc entries that are branch conditions (from If)
 }
 
 type ownedObj struct {
@@ -109,6 +112,12 @@ func (s *State) clone() *State {
 	n.owned = append([]ownedObj{}, s.owned...)
 	n.imprecise = s.imprecise
 	n.pending = append([]pendingHavoc{}, s.pending...)
+	if s.conds != nil {
+		n.conds = make(map[int]bool, len(s.conds))
+		for k, v := range s.conds {
+			n.conds[k] = v
+		}
+	}
 	if s.alias != nil {
 		n.alias = make(map[string]string, len(s.alias))
 		for k, v := range s.alias {
@@ -130,6 +139,12 @@ func (s *State) clone() *State {
 			nf.variant = map[*ssa.BasicBlock]Val{}
 			for k, v := range f.variant {
 				nf.variant[k] = v
+			}
+		}
+		if f.loopRef != nil {
+			nf.loopRef = map[*ssa.BasicBlock]*State{}
+			for k, v := range f.loopRef {
+				nf.loopRef[k] = v
 			}
 		}
 		if f.unrolled != nil {
@@ -163,6 +178,30 @@ func (s *State) assume(t string) {
 			}
 		}
 	}
+}
+
+// assumeCond: a branch condition (distinguished from facts when paths are merged).
+func (s *State) assumeCond(t string) {
+	n := len(s.pc)
+	s.assume(t)
+	if len(s.pc) > n {
+		if s.conds == nil {
+			s.conds = map[int]bool{}
+		}
+		s.conds[n] = true
+	}
+}
+
+// split returns the branch conditions and the other assumptions made since pc index from.
+func (s *State) split(from int) (conds, facts []string) {
+	for i := from; i < len(s.pc); i++ {
+		if s.conds[i] {
+			conds = append(conds, s.pc[i])
+		} else {
+			facts = append(facts, s.pc[i])
+		}
+	}
+	return
 }
 
 // knownTrue/False: purely syntactic
@@ -222,6 +261,9 @@ type Engine struct {
 	secs     float64
 	sitePos  map[string]string
 	softs    []string
+	inSummary int
+	rootFree  map[string]Val // captured variables of the closure under verification
+	inductive string // contract discharged by call-graph induction (text of the clause)
 	nprune   int
 	debugForks map[string]int
 	ncover   int
@@ -813,8 +855,8 @@ func (e *Engine) step(st *State) (succ []*State, cont bool) {
 			return e.gotoBlock(st, fr.block.Succs[k]), false
 		}
 		s2 := st.clone()
-		st.assume(c.T)
-		s2.assume(not(c.T))
+		st.assumeCond(c.T)
+		s2.assumeCond(not(c.T))
 		e.paths++
 		if e.debugForks != nil {
 			e.debugForks[posString(e.P.prog.Fset, e.posOf(fr, x.Cond))+" "+e.P.srcLine(e.P.prog.Fset.Position(e.posOf(fr, x.Cond)).Filename, e.P.prog.Fset.Position(e.posOf(fr, x.Cond)).Line)]++
@@ -842,7 +884,7 @@ func (e *Engine) step(st *State) (succ []*State, cont bool) {
 		for _, r := range x.Results {
 			rs = append(rs, e.get(st, r))
 		}
-		if len(st.frames) == 1 {
+		if len(st.frames) == 1 && e.inSummary == 0 {
 			// vacuity guard: remember the path conditions reaching each return of the function
 			key := posString(e.P.prog.Fset, e.posOf(fr, nil))
 			if e.covers == nil {
@@ -1061,9 +1103,12 @@ func (e *Engine) gotoBlock(st *State, b *ssa.BasicBlock) []*State {
 		return []*State{st}
 	}
 	isRoot := fr.fn == e.fn
-	var invs, decs, assumes []*Clause
+	var invs, decs, assumes, lframes []*Clause
 	if isRoot && e.con != nil {
 		for _, c := range e.con.Clauses {
+			if (c.Loop == li.ordinal || c.Loop == -1) && c.Kind == "loop-assigns" {
+				lframes = append(lframes, c)
+			}
 			if (c.Loop == li.ordinal || c.Loop == -1) && c.Kind == "loop-assume" {
 				assumes = append(assumes, c)
 			}
@@ -1099,6 +1144,13 @@ func (e *Engine) gotoBlock(st *State, b *ssa.BasicBlock) []*State {
 			v := e.evalSpecBool(st, e.entry, c.Expr, e.rootEnv(st, nil))
 			e.oblige(st, fmt.Sprintf("%s#inv-step:loop%d.%d %s", e.fnShort(), li.ordinal, k+1, c.Label), "K2", c.Text, v, e.where(from), c.Props)
 		}
+		if ref := fr.loopRef[b]; ref != nil {
+			for _, c := range lframes {
+				e.noAssume = true
+				e.checkFrameRel(st, ref, c, e.rootEnv(ref, nil), fmt.Sprintf("loop%d-assigns", li.ordinal), e.where(from))
+				e.noAssume = false
+			}
+		}
 		for _, c := range decs {
 			v1 := e.evalSpec(st, e.entry, c.Expr, e.rootEnv(st, nil))
 			v0, ok := fr.variant[b]
@@ -1122,7 +1174,18 @@ func (e *Engine) gotoBlock(st *State, b *ssa.BasicBlock) []*State {
 			st.cells[id] = e.freshVal(st, "loop."+a.Comment, t)
 		}
 	}
-	if !li.eff.pure() {
+	if len(lframes) > 0 {
+		// a declared loop frame: only these locations are forgotten (checked at the back edge)
+		pre := st.clone()
+		for _, c := range lframes {
+			for _, loc := range c.Locs {
+				e.havocLoc(st, pre, loc, e.rootEnv(pre, nil))
+			}
+		}
+		na := e.fresh("A", "Int")
+		st.assume(fmt.Sprintf("(>= %s %s)", na, st.A.term()))
+		st.A = allocCtr{na, 0}
+	} else if !li.eff.pure() {
 		ownedSave := st.owned
 		st.owned = nil // owned objects may be modified by the loop body itself
 		e.havocEffect(st, li.eff, "loop")
@@ -1164,6 +1227,12 @@ func (e *Engine) gotoBlock(st *State, b *ssa.BasicBlock) []*State {
 		v := e.evalSpecBool(st, e.entry, c.Expr, e.rootEnv(st, nil))
 		st.assume(v)
 		e.uncheckedAssumes[shortFn(e.fn)+" loop "+fmt.Sprint(li.ordinal)+": "+c.Text] = true
+	}
+	if len(lframes) > 0 {
+		if fr.loopRef == nil {
+			fr.loopRef = map[*ssa.BasicBlock]*State{}
+		}
+		fr.loopRef[b] = st.clone()
 	}
 	for _, c := range decs {
 		if fr.variant == nil {
@@ -1239,12 +1308,27 @@ func forkMap() map[string]int {
 
 // feasible: is the path condition satisfiable? (unknown / timeout count as feasible)
 func (e *Engine) feasible(st *State) bool {
-	body := and(st.pc...)
+	// quantified facts are left out: the query stays decidable and fast, and refuting a weaker
+	// formula still refutes the path condition
+	var qf []string
+	for _, c := range st.pc {
+		if !strings.Contains(c, "(forall ") && !strings.Contains(c, "(exists ") {
+			qf = append(qf, c)
+		}
+	}
+	body := and(qf...)
 	ax := e.axiomText()
 	q := "(set-option :timeout 1500)\n" + e.usedDecls(body+ax) + ax + "(assert " + body + ")\n(check-sat)\n"
 	ctx, cancel := context.WithTimeout(context.Background(), 5*time.Second)
 	defer cancel()
+	t0 := time.Now()
 	out, _ := runSolver(ctx, "z3-new", []string{"-in"}, q)
 	e.nprune++
+	if os.Getenv("GOVC_FEAS") != "" {
+		fmt.Fprintf(os.Stderr, "feasible %s %.2fs len=%d\n", firstLine(out), time.Since(t0).Seconds(), len(q))
+		if time.Since(t0).Seconds() > 1.0 && e.nprune < 200 {
+			os.WriteFile(fmt.Sprintf("/tmp/feas-%d.smt2", e.nprune), []byte(q), 0o644)
+		}
+	}
 	return firstLine(out) != "unsat"
 }
